@@ -227,6 +227,78 @@ def rule_check_preprocessor(repo, rep):
     rep.refuted(R, 'dispatch', site(f),
                 'dispatch kinds found %s, expected indexer and self'
                 % sorted(kinds))
+  # which kind of preprocessor takes which path: interpretation on one
+  # representative per kind
+  from ..minterp import Interp, World, Undecided
+  from .c07b import S, tg
+  Rt = 'R-INTERP:check-preprocessor-table'
+  rep.rule(Rt, '_check_preprocessor interpreted for a preprocessor that is '
+           'None / a callable / an array-like / a callable array-like / '
+           'something else (a number): preprocessor_ is None / the callable '
+           '/ ArrayIndexer(the array-like) (twice) / ValueError')
+
+  class W(World):
+    def __init__(self, kind):
+      self.kind = kind
+      self.stored = {}
+
+    def attr(self, it, v, attr, node):
+      if v == S('self'):
+        if attr == 'preprocessor':
+          return None if self.kind == 'none' else (
+              5 if self.kind == 'number' else S('pre', self.kind))
+        if attr in self.stored:
+          return self.stored[attr]
+      return NotImplemented
+
+    def setattr(self, it, obj, attr, value, node):
+      if obj == S('self'):
+        self.stored[attr] = value
+        return None
+      return NotImplemented
+
+    def call(self, it, d, recv, args, kwargs, node):
+      if d == 'callable' and len(args) == 1 and tg(args[0]) == 'pre':
+        return args[0][1] in ('callable', 'callable-array')
+      if d.endswith('_is_arraylike') and len(args) == 1:
+        if tg(args[0]) == 'pre':
+          return args[0][1] in ('array', 'callable-array')
+        return False
+      if d.endswith('.ArrayIndexer') and len(args) == 1:
+        return S('indexer', args[0])
+      if d == 'hasattr' and len(args) == 2 and tg(args[0]) == 'pre':
+        return args[0][1] in ('array', 'callable-array') and \
+            args[1] in ('__len__', 'shape', '__array__')
+      return NotImplemented
+  table = {'none': ('store', None), 'callable': ('store', S('pre', 'callable')),
+           'array': ('store', S('indexer', S('pre', 'array'))),
+           'callable-array': ('store', S('indexer', S('pre',
+                                                     'callable-array'))),
+           'number': ('raise', 'ValueError')}
+  bad = unk = None
+  for kind, want in table.items():
+    w = W(kind)
+    try:
+      out = Interp(repo, f, w).run({'self': S('self')})
+    except Undecided as u:
+      unk = unk or '%s (preprocessor: %s)' % (u, kind)
+      continue
+    if out[0] == 'raise':
+      got = ('raise', 'ValueError' if 'ValueError' in out[1] else out[1][0])
+    elif 'preprocessor_' not in w.stored:
+      got = ('store', '<nothing>')
+    else:
+      got = ('store', w.stored['preprocessor_'])
+    if got != want:
+      bad = bad or 'for a preprocessor that is %s: %s %r, documented %s %r' \
+          % (kind, got[0], got[1], want[0], want[1])
+  key = 'base_metric.BaseMetricLearner._check_preprocessor'
+  if bad:
+    rep.refuted(Rt, key, site(f), bad)
+  elif unk:
+    rep.unknown(Rt, key, site(f), unk)
+  else:
+    rep.derived(Rt, key, site(f))
   # ArrayIndexer.__call__ = self.X[indices]
   Rc = 'R-FORM:array-indexer'
   rep.rule(Rc, 'ArrayIndexer.__call__(indices) is self.X[indices]: rows '
